@@ -51,6 +51,8 @@ pub struct OutConfig {
     pub decode: [u8; 4],
     pub class_zero_octet_strings: bool,
     pub max_read_headers: Option<u16>,
+    /// Some(k): a datagram outstation whose configured remote endpoint is the socket address of peer k (10.0.0.k:20000)
+    pub udp_remote: Option<u8>,
 }
 
 impl Default for OutConfig {
@@ -70,6 +72,7 @@ impl Default for OutConfig {
             unsol_retry_delay_ms: 5000,
             keep_alive_ms: None,
             max_controls: None,
+            udp_remote: None,
             event_buffer: [10; 8],
             decode: [0; 4],
             class_zero_octet_strings: false,
@@ -483,6 +486,8 @@ pub struct OutRig {
     sessions: crate::util::channel::Sender<NewSession>,
     task: Option<tokio::task::JoinHandle<()>>,
     session_id: u64,
+    /// the raw writes seen by the most recent `take_tx`, each with the peer number of its destination socket address
+    pub last_writes: Vec<(Vec<u8>, Option<u8>)>,
     /// transport sequence number used by the harness when it plays the master
     pub tseq: u8,
     partial: Option<(u16, u8, Vec<u8>)>,
@@ -506,7 +511,10 @@ impl OutRig {
             modes,
             ParseOptions::default(),
             cfg.to_lib(),
-            PhysAddr::None,
+            match cfg.udp_remote {
+                Some(k) => PhysAddr::Udp(std::net::SocketAddr::from(([10, 0, 0, k], 20000))),
+                None => PhysAddr::None,
+            },
             Box::new(App(shared.clone())),
             Box::new(Info(shared.clone())),
             Box::new(Controls(shared.clone())),
@@ -534,6 +542,7 @@ impl OutRig {
             partial: None,
             start,
             task_failure: None,
+            last_writes: vec![],
         };
         rig.connect().await;
         rig
@@ -577,6 +586,13 @@ impl OutRig {
     }
 
     /// link frames (unconfirmed user data, master -> `dst`) carrying `fragment`, segmented by the reference
+    /// bytes that arrive from the socket address of peer k
+    pub fn send_raw_from(&mut self, bytes: &[u8], peer: u8) {
+        if let Some(p) = &self.peer {
+            p.send_from(bytes, peer);
+        }
+    }
+
     pub fn frame_fragment(&mut self, src: u16, dst: u16, fragment: &[u8]) -> Vec<u8> {
         let (segs, next) = crate::verif::wire::transport::segment(src, fragment, self.tseq);
         self.tseq = next;
@@ -650,6 +666,21 @@ impl OutRig {
             Some(p) => p.drain_timed(),
             None => vec![],
         };
+        let dests: Vec<Option<std::net::SocketAddr>> = match &self.peer {
+            Some(p) => std::mem::take(&mut *p.write_to.lock().unwrap()),
+            None => vec![],
+        };
+        self.last_writes = chunks
+            .iter()
+            .enumerate()
+            .map(|(i, (_, c))| {
+                let peer = dests.get(i).cloned().flatten().and_then(|a| match a.ip() {
+                    std::net::IpAddr::V4(v4) => Some(v4.octets()[3]),
+                    _ => None,
+                });
+                (c.clone(), peer)
+            })
+            .collect();
         for (at, c) in chunks {
             // exact virtual time of the write
             let t = at
